@@ -24,11 +24,11 @@ F8_BEH = {"cap": 2, "maxBytes": 0, "store": {"A": "c1", "B": "c2"},
                     {"t": "t1", "op": "Put", "k": "k1", "c": "c2", "f": "ok"},
                     {"t": "t1", "op": "Remove", "k": "k1", "c": "nil", "f": "ok"}]}
 CANDIDATES = [
-    # (key, mode, env, description)
-    ("resize:Get(k);Put(k,revision of another size);Remove(k)", "seq", {"VERIF_C16_IMPL": "lru"},
+    # (key, harness mode, description)
+    ("resize:Get(k);Put(k,revision of another size);Remove(k)", "cand",
      "LRURevisionCache.Put overwrites itemBytes of an already-sized value (CAS fails, no increment); the later Remove/eviction "
      "decrements the new size: RevisionCacheTotalMemory != 0 on an empty cache (DESIGN section 7, F8)"),
-    ("revive:Get(k) load fails || Put(k)", "sched", {"VERIF_C16_SCENARIO": "revive"},
+    ("revive:Get(k) load fails || Put(k)", "sched-revive",
      "Get(k) misses and its load fails while a concurrent Put(k) sizes the same value (CAS Loading->Sized, increment); "
      "removeValueForFailedLoad stores memStateRemoved without decrementing: RevisionCacheTotalMemory stays inflated on an empty cache"),
 ]
@@ -48,14 +48,24 @@ def run(ctx):
     if quick:                                     # a seeded third of the exhaustive set per run (all of it in the thorough tier)
         behs = [b for i, b in enumerate(behs) if (i + ctx.seed) % 3 == 0]
     behs += behaviours(ctx, SPEC, "MC_RevCache", "Sim_RevCache.cfg", num=150 if quick else 3000, depth=150, timeout=1800)
-    seq_replay(ctx, behs)
-
-    # ---- 3. concurrent driver
-    conc(ctx)
-
-    # ---- 4. candidates (named deviations) on the real code
-    for key, mode, env, what in CANDIDATES:
-        candidate(ctx, key, mode, env, what)
+    # ---- one start of the db test binary for: sequential replay, concurrent driver, candidates (forced deviations)
+    bf = os.path.join(ctx.scratch, "c16-beh.json")
+    cf = os.path.join(ctx.scratch, "c16-cand-beh.json")
+    write_json(bf, behs)
+    write_json(cf, [F8_BEH])
+    modes = ["seq"] + [m for _, m, _ in CANDIDATES]
+    env = {"VERIF_BEH": bf, "VERIF_BEH_CAND": cf,
+           "VERIF_C16_RUNS": 30 if quick else 400, "VERIF_C16_ROUNDS": 5 if quick else 8, "VERIF_C16_CALLS": 10 if quick else 25, "VERIF_C16_G": 4}
+    if quick:
+        traces = _go(ctx, modes + ["conc"], env)
+    else:
+        traces = _go(ctx, modes, env)
+        env["VERIF_C16_NOPEEK"] = "1"      # Peek reads the value without its lock: a race-detector report there is not this property
+        traces.update(_go(ctx, ["conc"], env, race=True))
+    seq_replay(ctx, behs, traces["seq"])          # 2. sequential binding
+    conc(ctx, traces["conc"])                     # 3. concurrent driver
+    for key, mode, what in CANDIDATES:            # 4. named deviations forced on the real code
+        candidate(ctx, key, traces[mode], what)
 
     ctx.cov["rule"] = ("behaviours = every sequence of 3 whole calls (Get/GetActive/Put/Upsert/Remove/Peek x 2 keys x 2 contents x loader "
                        "ok/fail) x 2 configurations [quick: a seeded third] + seeded simulations of 10 calls over 4 keys, 36 configurations, "
@@ -70,13 +80,15 @@ def run(ctx):
 
 
 # --------------------------------------------------------------------------------------------
-def _go(ctx, mode, trace, env=None, race=False, timeout=1800):
-    e = {"VERIF_C16_MODE": mode, "VERIF_TRACE_OUT": trace}
+def _go(ctx, modes, env, race=False, timeout=3000):
+    base = os.path.join(ctx.scratch, "c16-%d.ndjson" % len(ctx.cov["go_runs"]))
+    e = {"VERIF_C16_MODE": ",".join(modes), "VERIF_TRACE_OUT": base}
     e.update(env or {})
     rc, out = go_test(ctx, "db", RUN, HARNESS, env=e, race=race, timeout=timeout)
-    if rc != 0 or not os.path.exists(trace):
-        raise Inconclusive("C16 harness failed (mode %s):\n%s" % (mode, harness_failure(out)))
-    return read_ndjson(trace)
+    traces = {m: base + "." + m for m in modes}
+    if rc != 0 or not all(os.path.exists(p) for p in traces.values()):
+        raise Inconclusive("C16 harness failed (modes %s):\n%s" % (modes, harness_failure(out)))
+    return traces
 
 
 def _beh_at(rows, line):
@@ -107,11 +119,8 @@ def _violation(ctx, what_prefix, vp, rows, behs=None, key=None):
          "state": (vp.state or {}).get("_txt")})
 
 
-def seq_replay(ctx, behs):
-    bf = os.path.join(ctx.scratch, "c16-beh.json")
-    tr = os.path.join(ctx.scratch, "c16-seq.ndjson")
-    write_json(bf, behs)
-    rows = _go(ctx, "seq", tr, env={"VERIF_BEH": bf})
+def seq_replay(ctx, behs, tr):
+    rows = read_ndjson(tr)
     ctx.cov["evaluations"] += len(behs)
     # non-vacuity, measured on the recorded real state
     nontriv, cur, impls, hits = set(), None, {}, {"evict": 0, "failed_load": 0}
@@ -152,14 +161,8 @@ def seq_replay(ctx, behs):
         ctx.cov["traces_validated_against_impl"] += len(behs)
 
 
-def conc(ctx):
-    tr = os.path.join(ctx.scratch, "c16-conc.ndjson")
-    quick = ctx.quick()
-    env = {"VERIF_C16_RUNS": 30 if quick else 400, "VERIF_C16_ROUNDS": 5 if quick else 8, "VERIF_C16_CALLS": 10 if quick else 25,
-           "VERIF_C16_G": 4}
-    if not quick:
-        env["VERIF_C16_NOPEEK"] = "1"      # Peek reads the value without its lock (a data race report is not this property)
-    rows = _go(ctx, "conc", tr, env=env, race=not quick, timeout=3000)
+def conc(ctx, tr):
+    rows = read_ndjson(tr)
     runs = sum(1 for r in rows if r["a"] == "Reset")
     snaps = [r for r in rows if r["a"] == "Quiesce"]
     ctx.cov["evaluations"] += runs
@@ -178,14 +181,8 @@ def conc(ctx):
     ctx.cov["traces_validated_against_impl"] += runs
 
 
-def candidate(ctx, key, mode, env, what):
-    tr = os.path.join(ctx.scratch, "c16-cand-%d.ndjson" % len(ctx.cov["go_runs"]))
-    e = dict(env)
-    if mode == "seq":
-        bf = os.path.join(ctx.scratch, "c16-cand-beh.json")
-        write_json(bf, [F8_BEH])
-        e["VERIF_BEH"] = bf
-    rows = _go(ctx, mode, tr, env=e)
+def candidate(ctx, key, tr, what):
+    rows = read_ndjson(tr)
     ctx.cov["evaluations"] += 1
     vp = validate(ctx, SPEC, "Trace_RevCache", "Trace_RevCache_PS.cfg", tr, timeout=900)
     name = key.split(":")[0]
